@@ -246,6 +246,132 @@ func verifCollect[K comparable, V any](m *Map[K, V]) []Tuple[K, V] {
 //@     invariant [shape] 0 <= $idx && msv != nil && fresh(msv) && msv != m && wf(msv) && msv.index != nil && fresh(msv.index) && msv.index == atloop(msv.index) &&
 //@         (arr(msv.items) == atloop(arr(msv.items)) || loopfresh(msv.items)) && fresh(msv.items)
 
+// ---- C07: YAML decoding - cycle guard, independent copies, merge precedence ----
+// isNode: the (fixed) set of nodes of the document being decoded. Node
+// well-formedness as yaml.v3 produces it: content entries are nodes and an
+// alias node points at its anchor. Nodes are never written by this package.
+//@ ghost func isNode(n *yaml.Node) bool
+//@ define nodesWF() := forall nd *yaml.Node :: {isNode(nd)} isNode(nd) ==> nd != nil && allocated(nd) &&
+//@     (forall i int :: {nd.Content[i]} 0 <= i && i < len(nd.Content) ==> isNode(nd.Content[i])) &&
+//@     (nd.Kind == 16 ==> isNode(nd.Alias))
+//@ define allTrue(s) := forall x *yaml.Node :: {has(s, x)} has(s, x) ==> s[x]
+//@ define sameSet(s) := forall x *yaml.Node :: {has(s, x)} has(s, x) == old(has(s, x))
+
+// canonKey(n): the canonical string of a key node - by definition what
+// canonicalMapKey returns for it (a deterministic function of the node, which
+// nobody writes).
+//@ ghost func canonKey(n *yaml.Node) string
+//@ ghost func canonOK(n *yaml.Node) bool
+
+//@ func canonicalMapKey
+//@   requires isNode(n) && nodesWF()
+//@   assigns nothing
+//@   defines [key] (ret1 == nil) == canonOK(n) && (ret1 == nil ==> ret0 == canonKey(n))
+
+//@ func DecodeYAML
+//@   requires nodesWF() && (n == nil || isNode(n))
+//@   assigns nothing
+
+//@ frame NODES := all(*yaml.Node), all([]*yaml.Node)
+
+// Callbacks. A callback passed to rangeYAMLMap[Impl] may write whatever existed
+// before the traversal started, but not the traversal's own bookkeeping (the
+// merged set, the keys set), which it cannot reach.
+//@ func rangeYAMLMap#f
+//@   callback
+//@   preserves @NODES
+//@   requires isNode(val)
+//@ func rangeYAMLMapImpl#f
+//@   callback
+//@   preserves *merged, @NODES
+//@   requires isNode(val)
+//@ func rangeYAMLMapImpl$1#f
+//@   callback
+//@   preserves keys, f, *keys, @NODES
+//@   requires isNode(val)
+
+//@ func rangeYAMLMap
+//@   requires nodesWF() && (n == nil || isNode(n))
+//@   iterates f
+//@   assigns nothing
+
+// skipKeys (the closure used for merged content): a key already known - an
+// explicit key of this mapping, or one yielded by an earlier merge source - is
+// dropped without reaching f; a new key is recorded before it is yielded.
+//@ func rangeYAMLMapImpl$1
+//@   requires keys != nil && isNode(v)
+//@   iterates f
+//@   assigns *keys
+//@   ensures [skip] old(has(keys, k) && keys[k]) ==> ret == nil
+//@   ensures [mono] forall x string :: {has(keys, x)} old(has(keys, x) && keys[x]) ==> has(keys, x) && keys[x]
+//@   ensures [known] has(keys, k) && keys[k]
+
+// rangeYAMLMapImpl: merged only grows and contains n afterwards; a node already
+// merged is skipped (a merge cycle is tolerated). In the mapping case the first
+// pass records every explicit key before the second pass visits any merge, so
+// explicit keys beat merged ones wherever the merge is written (loop 1,
+// invariant explicit); keys yielded by a merge source are recorded by skipKeys,
+// so earlier sources beat later ones.
+//@ define mergedMono(merged) := forall x *yaml.Node :: {has(merged, x)} old(has(merged, x) && merged[x]) ==> has(merged, x) && merged[x]
+//@ define explicitKnown(n, keys, upto) := forall j int :: {n.Content[j]} 0 <= j && j < upto && j % 2 == 0 && n.Content[j].Tag != "!!merge" ==>
+//@     has(keys, canonKey(n.Content[j])) && keys[canonKey(n.Content[j])]
+//@ func rangeYAMLMapImpl
+//@   requires merged != nil && nodesWF() && (n == nil || isNode(n))
+//@   iterates f
+//@   assigns *merged
+//@   ensures [mono] mergedMono(merged)
+//@   ensures [added] n != nil ==> has(merged, n) && merged[n]
+//@   ensures [skip] n != nil && old(has(merged, n) && merged[n]) ==> ret == nil
+//@   loop 0
+//@     assigns *keys
+//@     invariant [shape] keys != nil && fresh(keys) && 0 <= i && i % 2 == 0 && len(n.Content) % 2 == 0
+//@     invariant [explicit] explicitKnown(n, keys, i)
+//@     decreases len(n.Content) - i
+//@   loop 1
+//@     assigns *keys, *merged, callback(f)
+//@     invariant [shape] keys != nil && fresh(keys) && 0 <= i && i % 2 == 0 && len(n.Content) % 2 == 0
+//@     invariant [explicit] explicitKnown(n, keys, len(n.Content))
+//@     invariant [merged] mergedMono(merged) && has(merged, n) && merged[n]
+//@     decreases len(n.Content) - i
+//@   loop rangeYAMLMapImpl.f
+//@     assigns *keys, callback(f)
+//@     invariant [keys] keys != nil && (forall x string :: {has(keys, x)} atloop(has(keys, x) && keys[x]) ==> has(keys, x) && keys[x])
+//@   loop 2
+//@     assigns *merged, callback(f)
+//@     invariant [idx] 0 <= $idx && $idx <= len(n.Content)
+//@     invariant [merged] mergedMono(merged) && has(merged, n) && merged[n]
+//@     decreases len(n.Content) - $idx
+
+// decodeYAML: a node already on the current path (seen) is a value cycle and is
+// rejected; the path set is restored on every exit, so the same anchor may be
+// expanded again on a sibling branch; every mapping / sequence result is a new
+// object (each alias expands to an independent copy).
+//@ func decodeYAML
+//@   requires seen != nil && allTrue(seen) && nodesWF() && (n == nil || isNode(n))
+//@   assigns *seen
+//@   ensures [nil] n == nil ==> ret0 == nil && ret1 == nil
+//@   ensures [cycle] n != nil && old(has(seen, n)) ==> ret1 != nil
+//@   ensures [restored] sameSet(seen) && allTrue(seen)
+//@   ensures [copy-map] ret1 == nil && typeis(ret0, *Map[string,any]) ==> unbox(ret0, *Map[string,any]) != nil && fresh(unbox(ret0, *Map[string,any]))
+//@   ensures [copy-seq] ret1 == nil && typeis(ret0, []any) ==> fresh(unbox(ret0, []any))
+//@   loop 0
+//@     assigns *seen, v[..]
+//@     invariant [idx] 0 <= $idx && $idx <= len(n.Content) && fresh(v) && (arr(v) == atloop(arr(v)) || loopfresh(v))
+//@     invariant [seen] has(seen, n) && (forall x *yaml.Node :: {has(seen, x)} x != n ==> has(seen, x) == old(has(seen, x))) && allTrue(seen)
+//@     decreases len(n.Content) - $idx
+//@   loop rangeYAMLMap.f
+//@     assigns *seen, m.index, m.items, *m.index, m.items[..]
+//@     invariant [m] m != nil && fresh(m) && wf(m) && m.index != nil && fresh(m.index) && m.index == atloop(m.index) && (arr(m.items) == atloop(arr(m.items)) || loopfresh(m.items)) && fresh(m.items)
+//@     invariant [seen] has(seen, n) && (forall x *yaml.Node :: {has(seen, x)} x != n ==> has(seen, x) == old(has(seen, x))) && allTrue(seen)
+
+// the callback decodeYAML hands to rangeYAMLMap: decode the value (restoring
+// seen) and append it to the map under construction
+//@ func decodeYAML$1
+//@   requires seen != nil && allTrue(seen) && nodesWF() && isNode(val) && m != nil && wf(m) && m.index != nil
+//@   assigns *seen, m.index, m.items, *m.index, m.items[..]
+//@   ensures [restored] sameSet(seen) && allTrue(seen)
+//@   ensures [wf] wf(m) && m.index == old(m.index) && (arr(m.items) == old(arr(m.items)) || fresh(m.items))
+
 // Unmarshal is given its frame only here: it may write anything reachable from
 // dst (stated coarsely as "everything"); functional clauses are added by the
 // properties that need them.
